@@ -1,14 +1,21 @@
 (** C10  The validity check accepts exactly the extensions that meet the format rules.
-    Model: Content/Model.v (check_valid and its callees, from_json, from_runtime_repr, NiftiWrapper.__init__);
-    rules: Content/Spec.v (valid_spec = conjunction of eight clauses, wf_domain); proofs: Content/Proofs*.v. *)
+    Model: Content/Model.v (check_valid and its callees, from_json, from_runtime_repr, NiftiWrapper.__init__).
+    TWO rule sets:
+      Content/Rules.v  valid_rules = the rules LITERALLY as the property states them;
+      Content/Spec.v   valid_spec  = what check_valid really inspects (weaker: open finding N14).
+    C10_accepts: everything the property admits is accepted.  C10_iff: the code checks exactly valid_spec.
+    C10_gap: what is accepted beyond valid_rules is one of five explicit blind spots, each shown to be real
+    by a C10_gap_*_refuted witness.  C10_iff_rules: away from the blind spots the check is exact for the
+    literal rules.  Proofs: Content/Proofs*.v. *)
 From Coq Require Import List Bool ZArith NArith QArith.
 From DV Require Import Common.Res Common.Str Common.Jv Generated.T_content
-  Content.PyVal Content.Model Content.Spec Content.ProofsClasses Content.ProofsMain
-  Content.ProofsCorrupt Content.ProofsOutside Content.ProofsTop Content.Examples.
+  Content.PyVal Content.Model Content.Spec Content.Rules Content.ProofsClasses Content.ProofsMain
+  Content.ProofsRules Content.ProofsCorrupt Content.ProofsOutside Content.ProofsTop Content.Examples.
 Import ListNotations.
 Open Scope Z_scope.
 
-(** The check accepts a content iff it meets every rule. *)
+(** The check accepts a content iff it meets every rule THAT THE CODE CHECKS ([valid_spec]; see
+    C10_accepts / C10_gap / C10_iff_rules for its relation to the property's literal rules). *)
 Theorem C10_iff :
   forall c : jv, wf_domain c = true -> (check_valid c = Ok tt <-> valid_spec c = true).
 Proof. exact check_valid_iff_spec. Qed.
@@ -149,3 +156,65 @@ Example C10_multiplicity_nonvacuous :
   get_valid_classes ex_content = Ok [cl_gconst; cl_gslices; cl_tsamples; cl_tslices] /\
   map (get_multiplicity ex_content) [cl_gconst; cl_gslices; cl_tsamples; cl_tslices] = [Ok 1; Ok 6; Ok 2; Ok 3].
 Proof. vm_compute. split; reflexivity. Qed.
+
+(** Everything the property's literal rules admit is accepted (no domain hypothesis needed), and
+    meets the rules the code checks. *)
+Theorem C10_accepts :
+  forall c : jv, valid_rules c = true ->
+    check_valid c = Ok tt /\ valid_spec c = true /\ wf_domain c = true.
+Proof. exact (fun c H => conj (rules_accepted c H) (conj (rules_accept_spec c H) (rules_wf c H))). Qed.
+
+Example C10_accepts_nonvacuous : valid_rules ex_content = true /\ gap ex_content = false.
+Proof. vm_compute. split; reflexivity. Qed.
+
+(** The gap, exactly: a content that passes what the code checks but not the literal rules shows
+    one of the five blind spots; without a blind spot the two rule sets agree. *)
+Theorem C10_gap :
+  (forall c : jv, valid_spec c = true -> valid_rules c = false -> gap c = true) /\
+  (forall c : jv, valid_spec c = true -> gap c = false -> valid_rules c = true) /\
+  (forall o : obj, gap (JObj o) =
+     gap_nonpositive o || gap_affine o || gap_degenerate o || gap_sized o || gap_stale o).
+Proof. exact (conj gap_exact (conj spec_gap (fun o => eq_refl))). Qed.
+
+Example C10_gap_nonvacuous :
+  valid_spec gapw_degenerate = true /\ valid_rules gapw_degenerate = false /\ gap gapw_degenerate = true.
+Proof. vm_compute. repeat split; reflexivity. Qed.
+
+(** The property's literal iff is FALSE of the code (open finding N14): for each blind spot a content
+    inside the domain that check_valid accepts and the literal rules reject. *)
+Theorem C10_gap_degenerate_refuted :
+  exists o, wf_domain (JObj o) = true /\ check_valid (JObj o) = Ok tt /\ valid_rules (JObj o) = false /\
+            gap_degenerate o = true.
+Proof. exists (match gapw_degenerate with JObj o => o | _ => [] end). vm_compute. repeat split; reflexivity. Qed.
+
+Theorem C10_gap_stale_refuted :
+  exists o, wf_domain (JObj o) = true /\ check_valid (JObj o) = Ok tt /\ valid_rules (JObj o) = false /\
+            gap_stale o = true /\ rule_unique o = true.
+Proof. exists (match gapw_stale with JObj o => o | _ => [] end). vm_compute. repeat split; reflexivity. Qed.
+
+Theorem C10_gap_nonpositive_refuted :
+  exists o, wf_domain (JObj o) = true /\ check_valid (JObj o) = Ok tt /\ valid_rules (JObj o) = false /\
+            gap_nonpositive o = true.
+Proof. exists (match gapw_nonpositive with JObj o => o | _ => [] end). vm_compute. repeat split; reflexivity. Qed.
+
+Theorem C10_gap_affine_refuted :
+  exists o, wf_domain (JObj o) = true /\ check_valid (JObj o) = Ok tt /\ valid_rules (JObj o) = false /\
+            gap_affine o = true.
+Proof. exists (match gapw_affine with JObj o => o | _ => [] end). vm_compute. repeat split; reflexivity. Qed.
+
+Theorem C10_gap_sized_refuted :
+  exists o, wf_domain (JObj o) = true /\ check_valid (JObj o) = Ok tt /\ valid_rules (JObj o) = false /\
+            gap_sized o = true.
+Proof. exists (match gapw_sized with JObj o => o | _ => [] end). vm_compute. repeat split; reflexivity. Qed.
+
+(** Away from the blind spots the check is exact for the property's literal rules. *)
+Theorem C10_iff_rules :
+  forall c : jv, wf_domain c = true -> gap c = false ->
+    (check_valid c = Ok tt <-> valid_rules c = true).
+Proof. exact check_valid_iff_rules. Qed.
+
+Example C10_iff_rules_nonvacuous :
+  wf_domain ex_content = true /\ gap ex_content = false /\ check_valid ex_content = Ok tt /\
+  wf_domain (JObj ex_short) = true /\ gap (JObj ex_short) = false /\
+  check_valid (JObj ex_short) = Err EInvalidExt /\ valid_rules (JObj ex_short) = false.
+Proof. vm_compute. repeat split; reflexivity. Qed.
